@@ -309,7 +309,7 @@ def impl_main(argv):
         res.append({'cfg': c, 'obs': obs, 'oracle': oracle(c, obs), 'strategy': 'server' if c.get('server') else 'stream', 'verdict': 'ok'})
     for k in range(n_server):
         c = gen_case(rng)
-        c.update({'server': True, 'has_pre': False, 'pre_fail': {}, 'src': [s for s in c['src'] if s[0] == 'd'], 'stop_after': None})
+        c.update({'server': True, 'has_pre': False, 'pre_fail': {}, 'submit_fail': {}, 'src': [s for s in c['src'] if s[0] == 'd'], 'stop_after': None})
         try:
             signal.alarm(90)
             obs = {'variants': run_server_variants(c)}
